@@ -38,8 +38,8 @@ pub const SUBS: &[SubDef] = &[
 ];
 
 fn run(ctx: &Ctx) {
-    ctx.run_tape("roundtrip", roundtrip, ctx.pick(20_000, 1_000_000), 700);
-    ctx.run_tape("invalid", invalid, ctx.pick(12_000, 500_000), 500);
+    ctx.run_tape("roundtrip", roundtrip, ctx.pick(240_000, 1_000_000), 700);
+    ctx.run_tape("invalid", invalid, ctx.pick(144_000, 500_000), 500);
     ctx.run_enum("types", types, true, "all 256 handshake type codes x 3 body shapes (empty, 5 bytes, a valid body for that code)", (0..768u32).map(|i| vec![(i / 3) as u8, (i % 3) as u8]));
     ctx.run_tape("large", large, ctx.pick(24, 600), 64);
     ctx.run_tape("huge", huge, ctx.pick(2, 48), 64);
